@@ -2,16 +2,16 @@ SPECIFICATION MCSpec
 CONSTANTS
   Me = "n1"
   Peers_ = {"n2", "n3"}
-  Later_ = {}
+  Later_ = {"n4"}
   Foreign_ = {"x9"}
-  Rewrites_ = {}
-  Quorum = 1
+  Rewrites_ = {{"n2"}, {"n2", "n3", "n4"}, {}}
+  Quorum = 0
   MyPrio = 100
-  QuorumTooLow = TRUE
+  QuorumTooLow = FALSE
   EDev = {}
   MaxSend = 3
-  Prios_ = {50, 200}
+  Prios_ = {50}
 CONSTRAINT MCBound
-INVARIANTS CountInv OneProcess
+INVARIANTS CountInv OneProcess PendInv
 PROPERTY MCAction
 CHECK_DEADLOCK FALSE
